@@ -58,12 +58,15 @@ CHECKS["C04"] = {
             "2 timeout configurations; " + SWEEP + "The reference model is keyed by client 5-tuple, so any cross-allocation effect is a disagreement. "
             "Part family: clients 10.0.0.2:4000, [::10.0.0.2]:4000 (same port, IPv4-compatible IPv6 form) and 10.0.0.2:4001. Part tcp: two TCP allocations of different users on one stream listener reusing "
             "peers for Connect / inbound connections / ConnectionBind (own and the other client's connection ids). "
+            "Part dual: one server with a UDP socket and a stream listener on the same ip:port sharing one relay address generator object; clients c1 (UDP) and c1t (stream) with the same ip:port and user, "
+            "c2t (stream): Allocate, Refresh0, CreatePermission, ChannelBind, closing a control connection, clock. "
             "Part realudp: the same kind of history enumeration (depth 3 quick / 4 thorough, clients c1,c2,c3; Allocate, Refresh0, CreatePermission, ChannelBind) against the real server on kernel loopback "
             "sockets (*net.UDPConn, bundled static generator), strictly sequential, sweep after every history; an unexpected delivery is a violation at once, a missing one only after three probes of 5 s, "
             "an unanswered request makes the history inconclusive (exhaustive=false).",
     "parts": [A("vtx", "./checks/c04", "TestC04", budget={"quick": 90, "thorough": 1500}),
               A("family", "./checks/c04", "TestC04Family", budget={"quick": 60, "thorough": 900}),
               A("tcp", "./checks/c04", "TestC04TCP", budget={"quick": 90, "thorough": 1500}),
+              A("dual", "./checks/c04", "TestC04Dual", budget={"quick": 90, "thorough": 1500}),
               A("realudp", "./checks/c04", "TestC04RealUDP", budget={"quick": 120, "thorough": 1500}),
               A("sched", "./checks/bsem", "TestC04Sched", overlay=True, gomaxprocs=1, budget={"quick": 90, "thorough": 1500})],
 }
